@@ -312,7 +312,7 @@ pub fn run(ctx: &mut Ctx) {
     }
 
     // ---- random medium grids
-    let total = ctx.size(150_000, 4_000_000);
+    let total = ctx.size(1_500_000, 8_000_000);
     for n in ctx.cases("random", total) {
         let mut rng = ctx.begin("random", n);
         let lines = rng.range(1, 6) as u32;
